@@ -18,6 +18,7 @@
 #include <sys/syscall.h>
 #include <linux/futex.h>
 #include <sys/epoll.h>
+#include <netdb.h>
 #include <sys/eventfd.h>
 #include <new>
 #include "engine/sched/sched.h"
@@ -122,6 +123,7 @@ extern "C" long long vf_now_ns(void) { return rt.clock; }
 extern "C" void vf_set_clock_ns(long long ns) { rt.clock = ns; }
 extern "C" int vf_thread_id(void) { return self ? self->id : -1; }
 extern "C" void vf_mark_daemon(void) { if(self) self->daemon = true; }
+extern "C" void vf_mark_library_threads_daemon(void) { for(int i = 1; i < rt.nthreads; ++i) T[i].daemon = true; }
 extern "C" long long vf_step(void) { return (long long)rt.opCount; }
 extern "C" long vf_my_block_count(void) { return self ? self->blockCount : 0; }
 extern "C" int vf_blocked_threads(void) { int n = 0; for(int i = 0; i < rt.nthreads; ++i) if(T[i].st == T_BLOCKED) ++n; return n; }
@@ -625,6 +627,14 @@ extern "C" int vf_usleep(unsigned us)
   point(OP_SLEEP, 0);
   return 0;
 }
+// name resolution never leaves the process: every name is unknown (a visible step, so that the resolving thread can be overtaken)
+extern "C" int vf_getaddrinfo(const char*, const char*, const struct addrinfo*, struct addrinfo** res)
+{
+  if(rt.active && self) point(OP_YIELD, 0);
+  if(res) *res = 0;
+  return EAI_NONAME;
+}
+extern "C" void vf_freeaddrinfo(struct addrinfo*) {}
 extern "C" int vf_clock_gettime(clockid_t, struct timespec* ts)
 {
   long long c = rt.clock;
